@@ -555,6 +555,16 @@ def attack_matrix():
         ctors.append(("fromWrap%d" % how, [{"op": "newArr", "vals": [0, 1, 2, 3]}, {"op": "wrap", "a": 0},
                                            {"op": "fieldFromWrap", "w": 0, "n": 4, "how": how}]))
     for how in range(4):
+        # the source is a still-writable VIEW whose base was locked before: lock() must protect the view object
+        ctors.append(("viewOfLockedBase%d" % how, [{"op": "newArr", "vals": [0, 1, 2, 3]},
+                                                   {"op": "sliceArr", "a": 0, "lo": 0, "hi": 4, "how": how},
+                                                   {"op": "setFlag", "a": 0, "b": False},
+                                                   {"op": "fieldFromArr", "a": 1, "n": 4, "how": how}]))
+        ctors.append(("wrappedViewOfLockedBase%d" % how, [{"op": "newArr", "vals": [0, 1, 2, 3]}, {"op": "wrap", "a": 0},
+                                                          {"op": "wrapGetitem", "w": 0, "lo": 0, "hi": 4, "how": how},
+                                                          {"op": "setFlag", "a": 0, "b": False},
+                                                          {"op": "fieldFromWrap", "w": 1, "n": 4, "how": how % 3}]))
+    for how in range(4):
         ctors.append(("full%d" % how, [{"op": "fieldFull", "n": 4, "v": 3, "how": how}]))
     base = [{"op": "newArr", "vals": [0, 1, 2, 3]}, {"op": "fieldFromArr", "a": 0, "n": 4, "how": 1}]
     for how in range(2):
